@@ -203,7 +203,13 @@ def run(ctx) -> None:
                  f"{name} no longer replaces a split tetrahedron by its children", stmt=name)
 
     # ---------------------------------------------------------------- R06.5
-    r5 = ctx.rule("R06.5", "k-point action of a point-group operation carries the TR and inversion signs")
+    kpoint_action(ctx, "R06.5")
+
+
+def kpoint_action(ctx, rid: str) -> None:
+    """k ↦ iTR · iInv · R k (shared by C06 and C07)."""
+    idx = ctx.index
+    r5 = ctx.rule(rid, "k-point action of a point-group operation carries the TR and inversion signs")
     tr = idx.function(PS, "PointSymmetry.transform_reduced_vector")
     r5.instance(tr.short)
     rv = [s for s in stmts(tr.node) if isinstance(s, ast.Return)]
